@@ -165,6 +165,79 @@ def s_stale(F, res):
     res.count("Compiler trait entry points", len(entries))
 
 
+def s_refresh(F, res):
+    """A field that reduce_op reads and compile() writes (the body kept for min_utxo sizing) must be replaced by *every*
+    successful compile(): each path of compile() - helpers inlined - that reaches `Ok(..)` passes through an unconditional
+    overwrite of the field with a value that does not come from the field itself.  Only then does each round of the resolve
+    loop size against the transaction being resolved; a conditional or merged write keeps an earlier transaction's body alive
+    for the whole resolution (necessary condition; the first-round leak is S-STALE's subject)."""
+    from ..common import with_helpers
+    adt = F.adt(COMP)
+    fields = [fd["name"] for fd in adt["variants"][0]["fields"]]
+    entries = [p for p, f in F.fns.items() if p.startswith("<tx3_cardano::Compiler as tx3_tir::compile::Compiler>::") and not f.get("owner")]
+    readers, writers = {}, {}
+    bodies = {ep: with_helpers(F, ep, depth=3) for ep in entries}
+    evs = {ep: _field_events(b, COMP) for ep, b in bodies.items()}
+    for ep, e in evs.items():
+        for bi, line, fld, kind, s in e:
+            (readers if kind == "read" else writers).setdefault(fld, set()).add(ep)
+    n = 0
+    for fld in fields:
+        for ep in sorted(writers.get(fld, ())):
+            if not (readers.get(fld, set()) - {ep}):
+                continue
+            n += 1
+            f = bodies[ep]
+            du = mir.DefUse(f)
+            cfg = mir.CFG(f)
+            key = "%s.%s|replaced by every successful %s" % (COMP, fld, ep.split("::")[-1])
+            over = {}
+            for bi, line, fl, kind, s in evs[ep]:
+                if fl != fld or kind != "overwrite" or s is None:
+                    continue
+                src = mir.provenance(f, du, s["rv"].get("op") or {}) if s["rv"]["k"] == "use" else []
+                if any(o.kind == "arg" and o.local == 1 and ("." + fld) in o.proj for o in src):
+                    continue
+                si = f["blocks"][bi]["s"].index(s)
+                over[bi] = min(over.get(bi, si), si)
+            # `self.f.replace(v)` / `self.f.insert(v)` / `mem::replace(&mut self.f, v)` overwrite just the same
+            for bi, t in mir.calls(f):
+                c = t.get("callee") or ""
+                if not (c in ("std::option::Option::<T>::replace", "std::option::Option::<T>::insert", "std::mem::replace") and t["args"]):
+                    continue
+                for o in mir.provenance(f, du, t["args"][0]):
+                    if o.kind == "arg" and o.local == 1 and o.proj and o.proj[-1] == "." + fld:
+                        over[bi] = len(f["blocks"][bi]["s"])
+            # blocks that build the Ok(..) which is returned
+            oks = set()
+            for o in mir.provenance(f, du, {"l": 0, "p": []}):
+                if o.kind == "agg" and o.rv.get("variant") == "Ok":
+                    bb = next((bi for bi, si, st in mir.stmts(f) if st["rv"] is o.rv), None)
+                    if bb is not None:
+                        oks.add((bb, next(i for i, st in enumerate(f["blocks"][bb]["s"]) if st["rv"] is o.rv)))
+            if not oks:
+                raise BrokenCheck("%s returns no Ok(..) aggregate" % ep)
+            # forward search from the entry that stops at overwriting blocks
+            seen, st = set(), [0]
+            while st:
+                b = st.pop()
+                if b in seen or f["blocks"][b]["cleanup"]:
+                    continue
+                seen.add(b)
+                if b in over:
+                    continue
+                st.extend(cfg.succ[b])
+            bad = sorted(b for b, si in oks if b in seen and not (b in over and over[b] < si))
+            if bad:
+                line = f["blocks"][bad[0]]["s"][0]["line"] if f["blocks"][bad[0]]["s"] else f["blocks"][bad[0]]["t"].get("line")
+                res.add([finding("S-REFRESH", key, where(F.fns[ep], line), "%s can return Ok(..) without having replaced `%s`: the field keeps the body of an earlier round or an earlier transaction, and %s then sizes against it for the rest of the resolution" % (
+                    ep.split("::")[-1], fld, ", ".join(sorted(x.split("::")[-1] for x in readers[fld] - {ep}))))])
+            else:
+                res.add([ok("S-REFRESH", key, where(F.fns[ep]), "every path to Ok(..) passes an unconditional overwrite of the field")])
+    res.count("refresh obligations", n)
+    res.floor("refresh obligations", n, 1)
+
+
 INTERIOR = re.compile(r"std::cell::(Cell|RefCell|OnceCell|UnsafeCell)<|std::sync::(Mutex|RwLock|OnceLock)<|std::sync::atomic::")
 
 
@@ -195,6 +268,8 @@ def run(ctx):
     res = Result("C20")
     res.rule("S-STALE", "compiler fields written after construction and read by reduce_op are reset for each resolution")
     res.rule("S-NOSTATE", "no statics / interior mutability on the resolve path")
+    res.rule("S-REFRESH", "a field compile() keeps for reduce_op is replaced by every successful compile()")
     s_stale(F, res)
+    s_refresh(F, res)
     s_nostate(F, res)
     return res
